@@ -11,7 +11,9 @@ EXTENDS Ast, TLC, Json
 
 Positions == {"ret", "or", "step", "bound", "start", "whilecond", "ifcond", "elifcond", "arg", "listelem", "opassign", "neg", "concat",
               "methodarg", "nested", "assertcond", "print", "typedinit", "mapvalue", "cmp", "ifbody", "elsebody", "loopbody", "whilebody",
-              "unwrapsrc", "fieldarg", "indexexpr", "retlist", "and", "not"}
+              "unwrapsrc", "fieldarg", "indexexpr", "retlist", "and", "not",
+              \* the variable occurs only in a later bracket of a multi-bracket index whose first bracket is a constant
+              "idx2read", "idx2write", "idx2opwrite", "idx2var", "idxmapread", "idxstr"}
 
 (* second family: `modify` of a captured variable whose declared type is wider than the type of the value stored *)
 ModKinds == {"mod_int", "mod_opt_set", "mod_opt_clear", "mod_opt_swap", "mod_str_longer", "mod_str_shorter", "mod_str_empty", "mod_bool", "mod_alias"}
@@ -37,6 +39,7 @@ Next == UNCHANGED <<pos, modx>>
 
 FT == "fn() -> int"
 X == V("x")
+Grid == <<LetT("r0", "[int...]", List(<<I(10), I(11), I(12), I(13), I(14)>>)), LetT("grid", "[[int...]...]", List(<<V("r0")>>))>>
 Body(p) ==
     CASE p = "ret" -> <<Ret(X)>>
       [] p = "or" -> <<LetT("nn", "int?", Nil), Ret(Or(V("nn"), X))>>
@@ -66,6 +69,14 @@ Body(p) ==
       [] p = "fieldarg" -> <<Let("bx", New("Bx", <<X>>)), Ret(Fld(V("bx"), "v"))>>
       [] p = "indexexpr" -> <<LetT("ls", "[int...]", List(<<I(10), I(11), I(12), I(13), I(14)>>)), Let("k", Bin("+", X, I(1))), Ret(Idx(V("ls"), V("k")))>>
       [] p = "retlist" -> <<LetT("ls", "[int...]", List(<<I(1), X>>)), Print(V("ls")), Ret(I(1))>>
+      [] p = "idx2read" -> Grid \o <<Ret(Idx(Idx(V("grid"), I(0)), X))>>
+      [] p = "idx2write" -> Grid \o <<Assign(Idx(Idx(V("grid"), I(0)), X), "=", I(77)), Print(V("grid")), Ret(I(1))>>
+      [] p = "idx2opwrite" -> Grid \o <<Assign(Idx(Idx(V("grid"), I(0)), X), "+", I(100)), Print(V("grid")), Ret(I(1))>>
+      [] p = "idx2var" -> Grid \o <<Let("k0", I(0)), Ret(Idx(Idx(V("grid"), V("k0")), X))>>
+      [] p = "idxmapread" -> <<LetT("r0", "[int...]", List(<<I(10), I(11), I(12), I(13), I(14)>>)),
+                               Let("mp", [k |-> "map", kt |-> "str", vt |-> "[int...]", kvs |-> <<[key |-> S("a"), val |-> V("r0")]>>, braces |-> TRUE]),
+                               Ret(Idx(Idx(V("mp"), S("a")), X))>>
+      [] p = "idxstr" -> <<LetT("ws", "[str...]", List(<<S("abcdef")>>)), Print(Idx(Idx(V("ws"), I(0)), X)), Ret(I(1))>>
       [] p = "and" -> <<IfElse(Bin("&&", Bin("==", I(1), I(1)), Bin("==", X, I(3))), <<Ret(I(1))>>, <<Ret(I(0))>>), Ret(I(0))>>
       [] p = "not" -> <<IfElse(Not(Bin("==", X, I(3))), <<Ret(I(0))>>, <<Ret(I(1))>>), Ret(I(0))>>
 
